@@ -14,13 +14,15 @@ CHECKS = {
    text="Coq theorems over the executable model: readVarint inverts sqlite3PutVarint for all 2^64 values (all nine lengths), parseRecord inverts the record "
         "format for every column list / every admissible serial type / any header size, the local-payload size equals the X/M/K rule for every payload "
         "length and legal page size (table and index), parsePayload decodes inline and spilled cells, addOverflow returns the payload for overflow chains "
-        "of any length; the four cell formats (table leaf / interior, index leaf / interior) decode from their encodings, the cell pointer array decodes to the offsets it encodes, and a table "
-        "leaf page laid out as the format says decodes to exactly its cells in pointer-array order (C14_table_leaf_cell ... C14_table_leaf_page). The local-payload arithmetic of the model is "
+        "of any length; the four cell formats (table leaf / interior, index leaf / interior) decode from their encodings, the cell pointer array decodes to the offsets it encodes, and a page of "
+        "each of the four kinds laid out as the format says - page 1 with its 100-byte file header included - decodes to exactly its cells in pointer-array order (C14_table_leaf_cell ... C14_table_leaf_page, "
+        "C14_index_leaf_page, C14_table_interior_page, C14_index_interior_page, C14_first_page_table_leaf, C14_first_page_table_interior). readVarint's loop body is translated from db/bits.go on every build (Go's wrapping uint64 arithmetic) and "
+        "proved to compute the model's read_varint on every byte string, ending within nine iterations (C14_source_varint). The local-payload arithmetic of the model is "
         "tied to the source by translation as well: calculateCellInPageBytes and the three threshold expressions are translated from db/btree.go on every build (Go's truncated / and %) and "
         "proved equal to the model's for every page size >= 12, payload length and threshold (C14_source_arithmetic). The model is run against the real decoders (function level, exhaustive on small spaces) and against SQLite-written files at every "
         "spill threshold on every run.",
-   note="The page-level theorem is stated for table leaf pages; the other three page kinds differ only in the header offset of the pointer array and the cell parser (their cells and the "
-        "pointer array have their own theorems) and are covered by the correspondence run on every page of the corpus.",
+   note="Page-level theorems take the well-formedness of each cell at its offset as a hypothesis (discharged by the cell theorems); that SQLite lays pages out this way is the file format, "
+        "validated by the correspondence run on every page of the corpus.",
    technique="Coq proof (round-trip theorems by induction) + differential execution of the extracted model vs the Go code vs independent oracle",
    design="DESIGN.md section 6, C14"),
  "C01": dict(
@@ -63,13 +65,15 @@ CHECKS = {
  "C12": dict(
    text="Coq: the table and index traversals deliver the rows up to the first failing page / cell and then report that failure (C12_table_iter, C12_index_iter: iter = deliver the "
         "flattening, where the flattening stops at the first error); for ANY set of page reads turned into failures the rows a scan sees are the fault-free rows or a prefix of them "
-        "followed by an error (C12_table_rows, C12_index_rows, C12_table_scan, C12_index_scan, C12_store; overflow pages included); the same for the from-key scans and Table.Rowid (C12_scan_min, C12_scan_range, C12_scan_eq, C12_rowid). Every run: the k-th physical read of every "
+        "followed by an error (C12_table_rows, C12_index_rows, C12_table_scan, C12_index_scan, C12_store; overflow pages included); the same for the from-key scans and Table.Rowid (C12_scan_min, C12_scan_range, C12_scan_eq, C12_rowid) and for the HIGH LEVEL API - "
+        "Select, SelectRowid, IndexedSelect, IndexedSelectEq, PKSelect with the sqlite_master read, the nested rowid / primary key lookup per index entry and the row mapping all through the faulty pager, "
+        "any schema record, any callback whose state only grows (C12_select, C12_select_rowid, C12_indexed_select, C12_indexed_select_eq, C12_pk_select; Proofs/FaultHighP.v). Every run: the k-th physical read of every "
         "operation (low level and high level, incl. the nested lookups of the indexed selects) fails, for every k up to the fault-free read count, as I/O error and as short read; "
         "the verdict is the property predicate itself; always-failing pages are run through the extracted model and the implementation.",
    note="The from-key operations have their own simulation proof (Proofs/FaultMinP.v): Index.ScanMin / ScanRange / ScanEq with any callback whose collected rows only grow (C12_scan_min, "
         "C12_scan_range, C12_scan_eq, C12_collectors_grow) and Table.Rowid (C12_rowid: the fault-free answer or an error) under any set of failing reads, the error-remembering bisection "
-        "included. The high level operations (Select*, IndexedSelect*, PKSelect: nested lookups, row mapping) are in the executable model and are compared with the code under faults on "
-        "every run; their prefix property follows from these theorems only informally (partial for the high level API). RLock failure is covered by C06/C07.",
+        "included. The high level theorems are a simulation with two callbacks (the faulty run's nested lookup may itself fail earlier than the fault-free run's): "
+        "FaultMinP is stated for a pair of callbacks related by out_le. RLock failure is covered by C06/C07; Row.Scan conversions by C18.",
    technique="Coq proof (fault monotonicity of the tree flattening) + exhaustive k-th-read fault injection on the Go code + model/implementation differential under faults",
    design="DESIGN.md section 6, C12"),
  "C13": dict(
@@ -104,9 +108,10 @@ CHECKS = {
  "C15": dict(
    text="Coq: parseHeader accepts exactly the headers of plain UTF-8, rollback-journal, no-reserved-space databases of a legal page size in schema format 2..4 and returns the declared page "
         "size (1 meaning 65536) (C15_accept, C15_only_accept); each must-reject class of the property is decided by one field whatever all other bytes hold (C15_reject_wal, _read_version, "
-        "_utf16, _reserved, _schema_format, _magic, _pagesize); the fields that do not affect reading may hold any value (C15_dont_care, over bytes 24..43, 48..55, 60..71, 92..99). "
+        "_utf16, _reserved, _schema_format, _magic, _pagesize); the fields that do not affect reading may hold any value (C15_dont_care, over bytes 24..43, 48..55, 60..71, 92..99); the offsets, widths and byte order the model reads "
+        "the fields with are those of the struct parseHeader decodes the 100 bytes into, translated from db/database.go on every build (C15_source_layout, C15_source_fields_modelled). "
         "Every run: every header byte x every value on SQLite-written headers, all 65536 page-size field values, real files of every legal page size end to end, real WAL (unmerged "
-        "content) / UTF-16 files, and the header rewritten under an open handle between transactions (every call of the transaction must fail).",
+        "content) / UTF-16 files, and the header rewritten under an open handle between transactions and between open and the handle's first transaction (every call of the transaction must fail).",
    note="Schema format 1 and 0, fractions other than 64/32/32, non-zero expansion bytes and text encodings other than 1..3 are left open by the property: sqlittle refuses them, the check does not judge them. "
         "Re-validation at every transaction is checked on the code (harness sequences); its model (resolveDirty) is part of C08's state machine.",
    technique="Coq proof (characterisation of the accepted headers) + exhaustive single-byte sweep differential",
@@ -168,9 +173,10 @@ CHECKS = {
         "transaction of that shape, EVERY crash point and EVERY torn last write: a database file that has been touched and whose transaction has not reached its commit point lies next "
         "to a journal that validJournal accepts (C09_crash), and such a journal without a live RESERVED lock makes every page request of every transaction fail (C09_hot_journal_refuses); "
         "journals shorter than a header are not hot (C09_benign); once the commit operation has taken effect, even partly, what is left is not hot at any later crash point (C09_committed); "
-        "so every crash state is one of: hot journal, untouched file, committed file without a hot journal (C09_every_crash_state). Every run: a real SQLite writer that spills is killed on entering every pwrite64 / fdatasync / ftruncate / unlink on the "
+        "so every crash state is one of: hot journal, untouched file, committed file without a hot journal (C09_every_crash_state); the journal header fields the model reads are the struct validJournal decodes, "
+        "translated from db/journal.go on every build (C09_source_journal_layout). Every run: a real SQLite writer that spills is killed on entering every pwrite64 / fdatasync / ftruncate / unlink on the "
         "two files (strace injection), torn writes are synthesised, DELETE / TRUNCATE / PERSIST, several page sizes, 512- and 4096-byte sectors; sqlittle must fail or return exactly what "
-        "real SQLite returns after recovering a copy; one handle across the crash; benign journals. The real writer's operation order is checked against the theorem's protocol automaton.",
+        "real SQLite returns after recovering a copy; one handle across the crash; the refused states re-read while another process holds a SHARED lock (still refused); benign journals. The real writer's operation order is checked against the theorem's protocol automaton.",
    note="PARTIAL: process-kill semantics (completed writes persist in order); power-loss reordering is outside the property. That SQLite's recovery of a pair whose journal is not hot returns the "
         "file as it is, and that the file then is the pre- or post-image, is validated by the oracle on every crash state, not proved (the model's cmod / cdone flags stand for it).",
    technique="Coq proof (protocol automaton invariant over all crash prefixes and torn writes) + strace kill-at-every-syscall differential vs SQLite recovery",
